@@ -77,6 +77,10 @@ def uniform(n):
 
 
 def truncated(n, user_bounds):
+    if user_bounds == 'min':
+        return truncated_one_sided(n, 'minimum')
+    if user_bounds == 'max':
+        return truncated_one_sided(n, 'maximum')
     kw = {'minimum': sym('m_lo'), 'maximum': sym('m_hi')} if user_bounds else {}
     X = [sym(f'x{i}') for i in range(n)]
 
@@ -174,6 +178,43 @@ def truncated(n, user_bounds):
     return bad, len(paths) + len(op), ex
 
 
+def truncated_one_sided(n, which):
+    """only one bound supplied: that end of the support is the user's, the other comes from the data"""
+    X = [sym(f'x{i}') for i in range(n)]
+    ub = sym('m_user')
+
+    def fn(ctx):
+        rng = RNGModel()
+        ctx.assume(z3.Or(*[X[i].t != X[0].t for i in range(1, n)]))
+        for x in X:
+            ctx.assume(x.t > ub.t if which == 'minimum' else x.t < ub.t)
+        with uni_patches(rng):
+            m = TruncatedGaussian(**{which: ub})
+            m.fit(objarr(X))
+        return m
+    paths, ex, _ = explore(fn, max_paths=2000, tlimit=120)
+    bad = []
+    eps = RV(float(EPSILON))
+    for p in paths:
+        if p.status != 'ok':
+            bad.append((f'{type(p.exc).__name__}: {p.exc}', None))
+            continue
+        pr = p.value._params
+        a, b, loc, scale = tz(pr['a']), tz(pr['b']), tz(pr['loc']), tz(pr['scale'])
+        lo_, hi_ = loc + a * scale, loc + b * scale
+        xs = [x.t for x in X]
+        if which == 'minimum':
+            g = z3.And(lo_ == ub.t, z3.And(*[hi_ >= x + eps for x in xs]), z3.Or(*[hi_ == x + eps for x in xs]))
+        else:
+            g = z3.And(hi_ == ub.t, z3.And(*[lo_ <= x - eps for x in xs]), z3.Or(*[lo_ == x - eps for x in xs]))
+        s = z3.Solver()
+        s.add(*p.ctx.pc)
+        s.add(z3.Not(g))
+        if s.check() != z3.unsat:
+            bad.append((f'only {which} given: support is not [user bound, data bound]', None))
+    return bad, len(paths), ex
+
+
 def mle_wiring(cls, name, order):
     """the stored params, splatted into MODEL_CLASS.cdf, denote the distribution fit() returned"""
     paths, ex, X = fit_paths(cls, {}, 3)
@@ -229,6 +270,8 @@ CASES = {
     'Uniform n=2': lambda: uniform(2), 'Uniform n=3': lambda: uniform(3), 'Uniform n=4': lambda: uniform(4),
     'TruncatedGaussian default bounds n=3': lambda: truncated(3, False),
     'TruncatedGaussian user bounds n=3': lambda: truncated(3, True),
+    'TruncatedGaussian only minimum given n=3': lambda: truncated(3, 'min'),
+    'TruncatedGaussian only maximum given n=3': lambda: truncated(3, 'max'),
     'Beta: params = beta.fit order (a,b,loc,scale)': lambda: mle_wiring(BetaUnivariate, 'beta', ['a', 'b', 'loc', 'scale']),
     'Gamma: params = gamma.fit order (a,loc,scale)': lambda: mle_wiring(GammaUnivariate, 'gamma', ['a', 'loc', 'scale']),
     'StudentT: params = t.fit order (df,loc,scale)': lambda: mle_wiring(StudentTUnivariate, 't', ['df', 'loc', 'scale']),
@@ -293,6 +336,21 @@ def concrete_violation(extra_bounds=None):
         q = np.quantile(data, [0.2, 0.5, 0.8])
         if not np.allclose(m.cdf(q), dist.cdf(q, *ref), rtol=1e-9):
             return True, f'{cls.__name__}: cdf is not the cdf of the distribution fit() returned'
+    for kw_, lo_w, hi_w in (({'minimum': -4.0}, -4.0, None), ({'maximum': 11.0}, None, 11.0)):
+        t1 = TruncatedGaussian(**kw_)
+        t1.fit(x)
+        p1 = t1._params
+        lo_s, hi_s = p1['loc'] + p1['a'] * p1['scale'], p1['loc'] + p1['b'] * p1['scale']
+        if (lo_w is not None and not np.isclose(lo_s, lo_w)) or (hi_w is not None and not np.isclose(hi_s, hi_w)):
+            return True, f'TruncatedGaussian({kw_}): support [{lo_s}, {hi_s}] does not honour the bound that was given'
+    xw = rs.normal(size=40)
+    ww = rs.uniform(0.2, 3.0, size=40)
+    kw2 = GaussianKDE(weights=ww / ww.sum(), bw_method=0.5)
+    kw2.fit(xw)
+    refw = stats.gaussian_kde(xw, bw_method=0.5, weights=ww / ww.sum())
+    ptsw = np.array([-1.0, 0.1, 0.9])
+    if not np.allclose(kw2.pdf(ptsw), refw.evaluate(ptsw), rtol=1e-10):
+        return True, 'weighted GaussianKDE density is not the weighted kernel estimate of the training data (weights misaligned?)'
     k = GaussianKDE(bw_method='silverman')
     k.fit(x[:50])
     ref = stats.gaussian_kde(x[:50], bw_method='silverman')
